@@ -123,9 +123,13 @@ def _conv(cls, job, kw, o):
         return r
     r["done"] = True
     to = "ios" if plat == "nxos" else "nxos"
+    # the documented spellings of a platform are interchangeable ("cnx", "cisco_nxos" = "nxos"; "cisco_ios" = "ios")
+    alias = {"nxos": ["nxos", "cnx", "cisco_nxos"], "ios": ["ios", "cisco_ios"]}
+    to_s = alias[to][job["tid"] % len(alias[to])]
+    plat_s = alias[plat][(job["tid"] // 3) % len(alias[plat])]
     uid, note = o.uuid, o.note
     try:
-        o.platform = to
+        o.platform = to_s
         first = o.line
         r["t1"] = parts_of(cls, first)
         r["same_id"], r["same_note"] = o.uuid == uid, o.note == note
@@ -133,9 +137,9 @@ def _conv(cls, job, kw, o):
         r["exc"] = "ValueError" if isinstance(ex, ValueError) else core.exc_name(ex)
         return r
     try:
-        o.platform = plat
+        o.platform = plat_s
         r["t2"] = parts_of(cls, o.line)
-        o.platform = to
+        o.platform = to_s
         r["there_again_same_text"] = o.line == first
         r["same_id"], r["same_note"] = r["same_id"] and o.uuid == uid, r["same_note"] and o.note == note
     except Exception as ex:  # noqa
